@@ -1,15 +1,101 @@
 from orchestrate.common import run_check
 
+E2E_KINDS = ("P", "R", "X", "G")
+
+
+def _events(ln):
+    out = ln.partition("|")[2]
+    i = out.find("T=")
+    return out[i + 2:].split()[0].split(",") if i >= 0 else []
+
+
 def _nontrivial(ln):
-    # a sequence is non-trivial when at least one allocation and one lookup/orphan occur
     case = ln.split("|")[0]
+    k = case.split(" ", 1)[0]
+    if k in E2E_KINDS:
+        # at least one request written, answered and completed
+        ev = _events(ln)
+        return any(e.startswith("i") for e in ev) and any(e.startswith("d") for e in ev)
+    if k == "O":
+        return " f" in ln.partition("|")[2] or " e" in ln.partition("|")[2]
+    # a sequence is non-trivial when at least one allocation and one lookup/orphan occur
     return (" a" in case or " F" in case) and (" l" in case or " o" in case or " D" in case)
+
 
 def _extra(lines, verdicts):
     ops = 0
     full = 0
+    e2e = {"runs": 0, "requests_submitted": 0, "frames_received_by_mock": 0, "completed_with_own_answer": 0,
+           "alloc_failures": 0, "dropped_never_written": 0, "dropped_before_write": 0, "dropped_after_write": 0,
+           "dropped_after_response": 0, "max_outstanding_on_one_connection": 0, "exhaustion_runs_reaching_32768": 0,
+           "oversized_frames_on_the_wire": 0}
+    timed = {"cases": 0, "allocations_refused_after_real_wait": 0, "count_probes": 0}
+    reader = {"cases": 0, "frames_returned": 0, "bodies_over_256MiB": 0}
     for ln in lines:
         case, _, out = ln.partition("|")
+        k = case.split(" ", 1)[0]
+        if k in E2E_KINDS:
+            ev = _events(ln)
+            e2e["runs"] += 1
+            pos_in, pos_out = {}, {}
+            outst, mx = set(), 0
+            for i, e in enumerate(ev):
+                c = e[0]
+                if c == "s":
+                    e2e["requests_submitted"] += 1
+                elif c == "i":
+                    sid, m = e[1:].split(".")
+                    pos_in[m] = i
+                    outst.add(sid)
+                    mx = max(mx, len(outst))
+                    e2e["frames_received_by_mock"] += 1
+                elif c == "o":
+                    sid, m = e[1:].split(".")[:2]
+                    pos_out[m] = i
+                    outst.discard(sid)
+                elif c == "d":
+                    m, o = e[1:].split(".", 1)
+                    if o == "a":
+                        e2e["alloc_failures"] += 1
+                    elif o == "r" + m:
+                        e2e["completed_with_own_answer"] += 1
+            for i, e in enumerate(ev):
+                if e[0] == "c" and not e.startswith("close"):
+                    m = e[1:]
+                    if m not in pos_in:
+                        e2e["dropped_never_written"] += 1
+                    elif pos_in[m] > i:
+                        e2e["dropped_before_write"] += 1
+                    elif m not in pos_out or pos_out[m] > i:
+                        e2e["dropped_after_write"] += 1
+                    else:
+                        e2e["dropped_after_response"] += 1
+            e2e["max_outstanding_on_one_connection"] = max(e2e["max_outstanding_on_one_connection"], mx)
+            if mx >= 32768:
+                e2e["exhaustion_runs_reaching_32768"] += 1
+            if k == "G":
+                e2e["oversized_frames_on_the_wire"] += 1
+            continue
+        if k == "O":
+            reader["cases"] += 1
+            for t in out.split():
+                if t.startswith("f"):
+                    reader["frames_returned"] += 1
+                    if int(t.split(".")[3], 16) > (256 << 20):
+                        reader["bodies_over_256MiB"] += 1
+            continue
+        if k == "T":
+            timed["cases"] += 1
+            toks = case.split()
+            res = out.split()
+            waited = False
+            # results are aligned with ops only up to compression; count refusals after the first wait
+            for t in toks:
+                if t.startswith("w") and t != "w0":
+                    waited = True
+            if waited:
+                timed["allocations_refused_after_real_wait"] += sum(1 for t in res if t.startswith("f"))
+            timed["count_probes"] += sum(1 for t in res if t.startswith("n"))
         for t in out.split():
             if t.startswith("S"):
                 ops += int(t.split(".")[1], 16)
@@ -17,8 +103,9 @@ def _extra(lines, verdicts):
                 ops += 1
         if " F8000." in case:
             full += 1
-    return {"operations_compared": ops, "full_32768_id_fills": full,
-            "end_to_end_half": "not part of this check yet (needs the mock node): see docs/C02.md"}
+    return {"operations_compared": ops, "full_32768_id_fills": full, "timed_state_machine": timed,
+            "end_to_end": e2e, "frame_reader": reader}
+
 
 SPEC = {
     "pid": "C02",
@@ -26,27 +113,42 @@ SPEC = {
     "bin": "c02",
     "sizes": {"quick": 40000, "thorough": 1200000},
     "search_n": 300000,
-    "rule": ("one case = one operation sequence on the real ResponseHandlerMap (hook H1), every return value and the "
-             "final state (into_handlers, bitmap words, request_to_stream, orphanage) compared exactly with the extracted "
-             "model: E = all sequences of length <= 4 (quick) / <= 6 (thorough) over {allocate rid 1|2, orphan rid 1|2|3, "
-             "lookup id 0|1|2, probe}; Z = fill of all 32768 ids, over-allocation, orphans, scattered drain, re-allocation; "
-             "B = prefilled to a word boundary then <= 60 random ops aimed at the boundary; Q = <= 60 random ops "
-             "(live / stale / duplicate / never-allocated request and stream ids); non-trivial = contains an allocation "
-             "and a lookup or orphan; distinct = distinct case lines"),
+    "rule": ("state machine (hook H1): one case = one operation sequence on the real ResponseHandlerMap, every return value and the "
+             "final state compared exactly with the extracted model: E = all sequences of length <= 4 (quick) / <= 6 (thorough) over "
+             "{allocate rid 1|2, orphan rid 1|2|3, lookup id 0|1|2, probe}; Z = fill of all 32768 ids, over-allocation, orphans, "
+             "scattered drain, re-allocation; B = prefilled to a word boundary then <= 60 random ops; Q = <= 60 random ops; "
+             "T = timed: real sleeps between orphaning and allocation (all ids used, orphans older / younger than 1 s), "
+             "old_orphans_count compared through the bracket of the clock readings. End to end (mocknode, one pool connection of a "
+             "real Session, unique marker per request echoed in the answer): P = phased run on a current-thread runtime with callers "
+             "dropped before enqueue / before write / after write / after the response; R = random timeouts, select and abort on a "
+             "multi-thread runtime, answers delayed and reordered; X = 32768 requests held by the mock, extra requests, callers "
+             "abandoned, > 1 s wait, more requests, release; G = a response frame with a body > 256 MiB whose tail looks "
+             "like frames for other in-flight streams; the merged history is judged by the extracted acceptor c02_trace_ok. "
+             "O = read_response_frame over generated byte streams (incl. a 256 MiB + 64 KiB body) against the extracted reader "
+             "model / its law. non-trivial = allocation and lookup/orphan (sm), a request written and a caller completed (e2e); "
+             "distinct = distinct case lines"),
     "nontrivial": _nontrivial,
     "extra_coverage": _extra,
     "trusted_base": [
         "hook scylla::client::verif_streams (VerifHandlerMap): wraps the crate-private ResponseHandlerMap; each token is a real "
         "ResponseHandler with a real oneshot sender, identified by which receiver gets a message sent through the returned handler",
         "the connection-level interleaving semantics (labels, atomicity = one try_lock critical section, FIFO channels, "
-        "peer that answers only what it received, once) is a hand-written model of router/reader/writer/orphaner; it is "
-        "tied to the code only through the handler-map operations it calls (sm tie); the end-to-end tie is not built yet",
+        "peer that answers only what it received, once) is a hand-written model of router/reader/writer/orphaner; it is tied to the "
+        "code through the handler-map operations (sm tie) and through the acceptor c02_trace_ok, which accepts every history of the "
+        "model (C02_trace_sound) and is run on histories of the real connection (e2e tie)",
+        "mocknode (harness/src/mocknode) and harness/src/c02_e2e.rs: the mock's frame trace, the echo of the marker, the merge of "
+        "caller-side stamps (submit stamped before the call, outcome after it) with the mock's events by one monotonic clock; the "
+        "acceptor's clauses use only orders that survive this skew (argued in docs/C02.md, not proved)",
+        "old_orphans_count in timed cases is accepted within the bracket [count with latest orphaning / earliest reading, count with "
+        "earliest orphaning / latest reading]; the bracket argument rests on C02_old_count_mono and C02_old_count_bracket",
+        "oversized reader cases (> 20 kB) are compared with the driver's native evaluation of the law C02_reader_frames on the stream "
+        "description (cross-checked against the extracted read_frames on every small case); body equality through a sampled FNV digest",
         "u64::trailing_ones is modelled as the number of consecutive one bits from bit 0",
     ],
     "assumptions": [
         "well-behaved peer: answers each received stream id at most once and only ids it received (the unsolicited-id branch exists in the model as LMissing -> broken)",
         "request ids from the AtomicU64 generator do not wrap (2^64 requests on one connection)",
-        "Tokio scheduling fairness, OrphanageTracker ages (old_orphans_count) and the keepaliver are outside the model",
+        "Tokio scheduling fairness and the keepaliver are outside the model (the e2e tie disables keepalives); the clock is an abstract label in the timed map",
     ],
 }
 
